@@ -3,22 +3,6 @@ import Pk.Proofs.MgrTruthGen
 namespace Pk.Props.C06Reach
 open Pk.Mgr Pk.Props.MgrReach Pk.Proofs.MgrTruth Pk.Proofs.MgrTags
 
-/-- the tag of the job keeps its text and attributes through an event that does not edit it -/
-theorem h1_of_not_edits (s : St) (e : Ev) (st : Started) (jn : String) (snap : Tag) (hn : ¬ C06.Edits e jn) :
-    ∀ ot', sget (step s e st).1.tags jn = some ot' → ot'.defn = snap.defn →
-      ∃ ot, sget s.tags jn = some ot ∧ ot.defn = snap.defn ∧ ot'.mfeat = ot.mfeat ∧ ot'.sfeat = ot.sfeat := by
-  intro ot' hot' hd'
-  have hk := keep_step s e st jn hn
-  cases hs : sget s.tags jn with
-  | none => rw [hk.2 hs] at hot'; cases hot'
-  | some ot =>
-    obtain ⟨t2, h2, hrel⟩ := hk.1 ot hs
-    rw [hot'] at h2; cases h2
-    obtain ⟨t3, h3, ha⟩ := attrs_get (step_attrs s e st jn (fun h => hn ((edits_iff e jn).2 h))) hs
-    rw [hot'] at h3; cases h3
-    obtain ⟨_, _, e3, e4⟩ := attrs_eq ha
-    exact ⟨ot, rfl, by rw [← hrel.2.1]; exact hd', e3, e4⟩
-
 /-- an event that edits no tag, keeps `next` and leaves the truth alone -/
 theorem good_sameOn (s : St) (e : Ev) (st : Started) (T T' g : Truth) (hg : Good s T g)
     (hE : ∀ n, ¬ C06.Edits e n) (hnext : (step s e st).1.next = s.next) (hs : SameOn s T T') :
@@ -38,10 +22,11 @@ theorem good_sameOn (s : St) (e : Ev) (st : Started) (T T' g : Truth) (hg : Good
   · intro jn snap held hj
     have hne : ∀ n r, e ≠ .tagDone n r := by
       intro n r he; subst he; exact hE n rfl
-    refine jobInv_mono s e st T T' g hg.reach hg.job hne jn snap held hj ?_ (h1_of_not_edits s e st jn snap (hE jn)) ?_
+    refine jobInv_mono s e st T T' g hg.reach hg.job hne jn snap held hj ?_ ?_
     · intro id h1 h2; rw [hnext] at h2; omega
-    · intro ot hot _ _ _ _ id hid hT
-      exact absurd (hs jn ot hot id hid) hT
+    · intro n' ot' hot' hg' hd'
+      obtain ⟨ot, hot, hg0, hd, ha⟩ := pre_of_not_edits s e st n' snap ot' (hE n') hot' hg' hd'
+      exact Or.inr ⟨n', ot, hot, hg0, hd, ha, fun _ id hid hT => absurd (hs n' ot hot id hid) hT⟩
 
 theorem not_edits_importDone (p u : Nat) (c : List (Nat × List Nat)) (a b d : List Nat) (n : String) :
     ¬ C06.Edits (.importDone p u c a b d) n := fun h => h
@@ -136,15 +121,17 @@ theorem good_importDone (s : St) (p u : Nat) (c : List (Nat × List Nat)) (a b d
     have htag : s.tag = true := hr.jobsWF.1.2 (by rw [hjt]; rfl)
     obtain ⟨mu, mr, ma⟩ := importDone_masks s p u c a b d st jn held hj hc htag
     have hne : ∀ n r, Ev.importDone p u c a b d ≠ .tagDone n r := fun n r h => by cases h
-    refine jobInv_mono s _ st T T' g hr hg.job hne jn' snap held' hjt ?_
-      (h1_of_not_edits s _ st jn' snap (not_edits_importDone p u c a b d jn')) ?_
+    refine jobInv_mono s _ st T T' g hr hg.job hne jn' snap held' hjt ?_ ?_
     · intro id h1 h2
       rw [hnext] at h2
       exact ma id (hadd jn held hj id (hjn ▸ h1) h2)
-    · intro ot hot hd e1 e2 _ id hid hT
-      have hrefs := hr.factsOK.1 jn' snap held' ot hjt hot hd
+    · intro n' ot' hot' hg' hd'
+      obtain ⟨ot, hot, hg0, hd, ha⟩ := pre_of_not_edits s _ st n' snap ot' (not_edits_importDone p u c a b d n') hot' hg' hd'
+      refine Or.inr ⟨n', ot, hot, hg0, hd, ha, ?_⟩
+      intro hA id hid hT
+      obtain ⟨r1, r2, e1, e2, _⟩ := attrs_eq hA
       have hlt : id < jn + u := by omega
-      refine job_cover hot hrefs.1 hrefs.2 (hch jn' ot hot id hid hT) ?_ ?_ ?_ ?_
+      refine job_cover hot r1 r2 (hch n' ot hot id hid hT) ?_ ?_ ?_ ?_
       · rintro ⟨t, ht, hB⟩
         rw [hot] at ht; cases ht
         rcases hB with hB | hB | hB | hB
